@@ -39,7 +39,9 @@ class Atom:
     str(n) (so int(atom) == n).  t: z3 String constant standing for the text."""
 
     def __init__(self, name, only=None, excl=frozenset(), minlen=0, int_of=None, note='',
-                 exact1=False):
+                 exact1=False, ws_normal=False):
+        # ws_normal: blanks inside occur only as single spaces, never at either end
+        self.ws_normal = ws_normal
         self.exact1 = exact1          # exactly one character (e.g. a letter in either case)
         if exact1:
             minlen = 1
@@ -438,6 +440,8 @@ def str_of_int(it, v):
     digits = '0123456789' if not it.ctx.feasible(v.t < 0) else '-0123456789'
     a = Atom(name, only=digits, minlen=1, int_of=v, note='str(int)')
     it.ctx.assume_type(z3.Length(a.t) >= 1)
+    if not it.ctx.feasible(z3.Or(v.t >= 10 ** 18, v.t <= -10 ** 18)):
+        it.ctx.assume_type(z3.Length(a.t) <= 19)      # |n| < 10^18 has at most 19 characters
     cache[v.t.get_id()] = (v.t, a)
     return XStr([(True, a)])
 
